@@ -495,6 +495,54 @@ samples.append({'kept_values': 'Udp-Bind-Source', 'requests': kept_sent, 'surviv
 px.stop(); uo2.stop()
 del cfg['timeouts']
 
+# ---- (viii) one byte of TCP urgent data inside a tunnel (any client can send it): the bytes around it are relayed as
+#      they are in the buffered relay (the urgent byte itself is out of band), the end of the stream is the end of
+#      the stream, and the worker that relays the tunnel does not spin
+def cpu_seconds(px_):
+    try:
+        f = open(f'/proc/{px_.proc.pid}/stat').read().rsplit(')', 1)[1].split()
+        return (int(f[11]) + int(f[12])) / os.sysconf('SC_CLK_TCK')
+    except (OSError, IndexError, ValueError):
+        return None
+for splice_ in (True, False):
+    cfg['ioParams'] = {'bufferSize': 65536, 'useSplice': splice_}
+    px = start()
+    rec_o = Origin('record')
+    try:
+        # (a) the client goes on sending after the urgent byte and keeps the connection open
+        s_, code, head, rest = http_connect(ports['http'], f'127.0.0.1:{echo.port}', timeout=4)
+        s_.sendall(b'abc'); time.sleep(0.1)
+        s_.send(b'!', socket.MSG_OOB); time.sleep(0.1)
+        s_.sendall(b'hello')
+        got = recv_exact(s_, 8, 2.5)
+        c0 = cpu_seconds(px); time.sleep(1.5); c1 = cpu_seconds(px)
+        s_.close()
+        # (b) ... and one that ends its stream right behind
+        s2, code, head, rest = http_connect(ports['http'], f'127.0.0.1:{rec_o.port}', timeout=4)
+        s2.sendall(b'abc'); time.sleep(0.1)
+        s2.send(b'!', socket.MSG_OOB); time.sleep(0.1)
+        s2.sendall(b'hello'); s2.shutdown(socket.SHUT_WR)
+        time.sleep(1.0)
+        rx = rec_o.conns[-1]['rx'] if rec_o.conns else None
+        eof = rec_o.conns[-1]['eof'] if rec_o.conns else None
+        s2.close()
+    except OSError as e:
+        got, rx, eof, c0, c1 = repr(e).encode(), None, None, None, None
+    evals += 1
+    mode_ = 'splice' if splice_ else 'buffered'
+    distinct.add(('urgent-byte', splice_, got[:8], rx))
+    rp_ = {'useSplice': splice_}
+    if got[:8] not in (b'abchello', b'abc!hell'):
+        chk.violation('relay.urgent-data', f'bytes-behind-an-urgent-byte-not-relayed|{mode_}', f'useSplice={splice_}: a client sent "abc", one byte of urgent data, "hello": the echo of it is {got!r} after 2.5 s', rp_)
+    if rx is not None and rx not in (b'abchello', b'abc!hello') and eof:
+        chk.violation('relay.urgent-data', f'end-of-stream-overtook-data-behind-an-urgent-byte|{mode_}', f'useSplice={splice_}: a client sent "abc", one byte of urgent data, "hello" and ended its stream: the origin received {rx!r} and then the end of the stream', rp_)
+    if c0 is not None and c1 is not None and c1 - c0 > 0.8:
+        chk.violation('relay.urgent-data', f'worker-spins-after-an-urgent-byte|{mode_}', f'useSplice={splice_}: after one byte of urgent data in an idle tunnel the proxy used {c1 - c0:.2f} s of CPU in 1.5 s', rp_)
+    judge(px, f'one byte of TCP urgent data in a tunnel (useSplice={splice_})', f'urgent-byte:{mode_}', rp_)
+    samples.append({'urgent_byte': {'useSplice': splice_, 'echo': repr(got), 'origin_received_before_eof': repr(rx), 'cpu_s_in_1.5s': None if c0 is None or c1 is None else round(c1 - c0, 2)}})
+    px.stop(); rec_o.stop()
+del cfg['ioParams']
+
 # ---- (iv) fields that never end, against a process that is allowed 1 GiB of address space: the proxy must give
 #      up on the connection long before it runs out of memory (a failed allocation aborts the process)
 MEM = 768 << 20
